@@ -108,6 +108,26 @@ def cores(repo):
             doc="C03: the line monitor's counters (`LineMonitor.next_line`, `set_end_lines_and_reset`): physical and data line counts and "
                 "numbers as the run loop steps through the records (heap mode; the `LastLineStats` record is left out)."),
          [("LineMonitor", "next_line"), ("LineMonitor", "set_end_lines_and_reset")]),
+        (py2lean.Core(
+            repo, "Control",
+            [("csvpath/matching/functions/lines/stop.py", "Stopper", ["_stop_me"]),
+             ("csvpath/matching/functions/lines/stop.py", "Stop", ["_decide_match"]),
+             ("csvpath/matching/functions/lines/stop.py", "Skipper", ["_skip_me"]),
+             ("csvpath/matching/functions/lines/stop.py", "Skip", ["_decide_match"]),
+             ("csvpath/matching/functions/validity/fail.py", "Fail", ["_decide_match"]),
+             ("csvpath/csvpath.py", "CsvPath", ["stop"])],
+            heap=True,
+            ignore=LOGGING + [r"logger\.info$"],
+            bases={"Stop": "Stopper", "Skip": "Skipper"},
+            links={("Stopper", "self.matcher.csvpath"): "CsvPath", ("Stop", "self.matcher.csvpath"): "CsvPath"},
+            opaque_text={"self.children[0].matches": "child_matches"},
+            effects={"self._set_has_happened": "set_has_happened"},
+            observers={"self.default_match()", "self.do_once()"},
+            observe_text={"len(self.children)"},
+            doc="C13/C04: what stop(), fail_and_stop(), skip() and fail() do (`Stopper._stop_me`, `Stop._decide_match`, `Skipper._skip_me`, "
+                "`Skip._decide_match`, `Fail._decide_match`, with `CsvPath.stop`): heap mode; the condition, if any, is the opaque call "
+                "`self.children[0].matches(skip=skip)`."),
+         [("Stop", "_decide_match"), ("Skip", "_decide_match"), ("Fail", "_decide_match")]),
     ]
 
 
